@@ -658,6 +658,17 @@ def _sticky_sentinels(ctx: Ctx):
                 continue
             if not isinstance(n.value, ast.BinOp):
                 continue
+            # (the marker and the accumulation concern the same entry: same key expression. A default written under another,
+            # constant key - `info["total"] = -1` when nothing was counted - is not a per-class marker.)
+            def _is_default(m):
+                # `if k not in T: T[k] = -1` is `T.setdefault(k, -1)`: it never overwrites an entry, so no accumulated figure follows it
+                for t_, pol_ in guards_of(pm, m):
+                    if isinstance(t_, ast.Compare) and len(t_.ops) == 1 and u(t_.comparators[0]) == tname and u(t_.left) == u(m.targets[0].slice) \
+                            and ((isinstance(t_.ops[0], ast.NotIn) and pol_) or (isinstance(t_.ops[0], ast.In) and not pol_)):
+                        return True
+                return False
+            if not any(u(m.targets[0].slice) == u(n.targets[0].slice) and not _is_default(m) for m in marks):
+                continue
             prevs = []
             for x in ast.walk(n.value):
                 if isinstance(x, ast.Name) and isinstance(x.ctx, ast.Load):
